@@ -103,9 +103,8 @@ Ltac position_loop stop unfold_after unfold_k1 :=
   | |- context [fold_left _ _ (_ (?px ++ ?x' :: ?r) (?pv ++ ?v' :: ?s) None)] =>
       replace (px ++ x' :: r) with ((px ++ [x']) ++ r) by (now rewrite <- app_assoc);
       replace (pv ++ v' :: s) with ((pv ++ [v']) ++ s) by (now rewrite <- app_assoc);
-      rewrite (IH r s (px ++ [x']) (pv ++ [v']) (S (length px)))
-        by (rewrite app_length; cbn; lia);
-      apply glue_step
+      rewrite <- glue_step;
+      apply (IH r s (px ++ [x']) (pv ++ [v']) (S (length px))); rewrite app_length; cbn; lia
   end.
 
 Section PositionEquiv.
@@ -136,7 +135,7 @@ Section PositionEquiv.
       position_update ltb add (fun v => mul v c) params (vec p) (vel p).
     Proof.
       intros p params. unfold omopso_position_body_gen.
-      rewrite (omopso_loop params (vec p) (vel p) [] [] 0 eq_refl eq_refl).
+      etransitivity; [exact (omopso_loop params (vec p) (vel p) [] [] 0 eq_refl eq_refl)|].
       destruct (position_update _ _ _ params (vec p) (vel p)) as [[a b]|]; reflexivity.
     Qed.
   End Omopso.
@@ -166,7 +165,7 @@ Section PositionEquiv.
       position_update ltb add (fun v => mul v c) params (vec p) (vel p).
     Proof.
       intros p params. unfold smpso_position_body_gen.
-      rewrite (smpso_loop params (vec p) (vel p) [] [] 0 eq_refl eq_refl).
+      etransitivity; [exact (smpso_loop params (vec p) (vel p) [] [] 0 eq_refl eq_refl)|].
       destruct (position_update _ _ _ params (vec p) (vel p)) as [[a b]|]; reflexivity.
     Qed.
   End Smpso.
@@ -196,7 +195,7 @@ Section PositionEquiv.
       position_update ltb add (fun v => mul v c) params (vec p) (vel p).
     Proof.
       intros p params. unfold psoga_position_body_gen.
-      rewrite (psoga_loop params (vec p) (vel p) [] [] 0 eq_refl eq_refl).
+      etransitivity; [exact (psoga_loop params (vec p) (vel p) [] [] 0 eq_refl eq_refl)|].
       destruct (position_update _ _ _ params (vec p) (vel p)) as [[a b]|]; reflexivity.
     Qed.
   End Psoga.
